@@ -558,5 +558,6 @@ func extractC04() *lean {
 	extractC04Limiter(l, eng)
 	extractC04KeysAndJti(l, akF, mw)
 	extractC04Config(l)
+	extractC04Routes(l)
 	return l
 }
